@@ -70,6 +70,15 @@ PROPS["C14"] = {
     "level_note": "Trusted: Lean kernel; filepath.Abs modelled lexically; EvalSymlinks/Stat results are observations passed to the model; the OCI runtime itself (runsc is not installed) is out of scope; parent-first assumes GOROOT, when set, is absolute.",
     "trusted_base": ["filepath.Abs = lexical clean of cwd-joined path", "host observations (lib paths exist, EvalSymlinks results) gathered by the harness with the standard library"],
 }
+PROPS["C13"] = {
+    "suites": [{"name": "audit", "quick": 500, "thorough": 12000, "timeout": 3000}],
+    "required_theorems": ["C13_fail_closed", "C13_faults_never_pass", "C13_retry_bound", "C13_exit_total", "C13_verdict_exact",
+                          "C13_lex_roundtrip", "C13_payload_lines", "C13_markers_once", "C13_truncate", "C13_escape_no_newline"],
+    "level_text": "Kernel-checked: exit 0 implies no high risk, or a sentinel text decoding to safe=true AND a main text decoding to verdict exactly \"MATCH\" that passes validation (for every response sequence of both calls); faults never pass; at most 4 requests per call; the JSON-quoted commit message lexes back to exactly itself and stops at its own closing quote (cannot close the string), every line of the enveloped JSON starts with '{', '}' or a space so no line can be a BEGIN/END marker, markers occur exactly once. Tie: a scripted local HTTP provider drives the real llm.CallLLM and cli.RunAudit; verdict, exit, request count and the payload BYTES are compared with the Lean model (which contains a JSON parser, Go's string encoder, cleanJSONMarkdown's regex semantics and encoding/json's struct decoding rules), and 'well-formed MATCH' is known by construction of each scenario.",
+    "level_note": "Trusted: Lean kernel; Go's encoding/json and regexp as modelled (validated byte-for-byte by the differential); the Gemini path (genai SDK) is exercised only through the shared parsing/validation code, its retry loop is not scripted; net/http transport behaviour.",
+    "trusted_base": ["encoding/json Unmarshal/Marshal semantics as re-implemented in Model/Json.lean + Model/Audit.lean", "regexp (RE2) leftmost-first semantics for the two fence patterns as modelled by fenceCapture"],
+    "partial": "the Gemini provider's retry loop (genai SDK) is not scripted; invalid UTF-8 in commit messages goes through the Go-side envelope oracle only",
+}
 _PENDING = "check not built yet in this round (planned: Lean model + theorems + differential, see DESIGN.md §5)"
 # entries with "unclaimed": True are runnable (./check Cxx) but not yet claimed in MANIFEST.json
 NOT_APPLICABLE = {p: _PENDING for p in ["C%02d" % i for i in range(1, 21)] if p not in PROPS or PROPS[p].get("unclaimed")}
